@@ -1,18 +1,20 @@
 #!/bin/sh
-# usage: tools/evalmut.sh <patch.diff> <prop> [<prop>...]   — evaluate a seeded mutant in scratch worktrees
-# (/tmp/mrepo = worktree of /repo HEAD with the patch applied; /tmp/vmut = worktree of /verif HEAD)
+# usage: [K=<n>] tools/evalmut.sh <patch.diff> <prop> [<prop>...]   — evaluate a seeded mutant in scratch worktrees
+# (/tmp/mrepo$K = worktree of /repo HEAD with the patch applied; /tmp/vmut$K = worktree of /verif HEAD);
+# several instances with different K can run in parallel
 set -e
 PATCH="$1"; shift
-[ -d /tmp/mrepo ] || git -C /repo worktree add -q --detach /tmp/mrepo HEAD
-git -C /tmp/mrepo checkout -q -- . && git -C /tmp/mrepo clean -fdq -e target
-git -C /tmp/mrepo checkout -q --detach "$(git -C /repo rev-parse HEAD)"
-git -C /tmp/mrepo apply "$PATCH"
-[ -d /tmp/vmut ] || git -C /verif worktree add -q --detach /tmp/vmut HEAD
-git -C /tmp/vmut checkout -q -- .
-git -C /tmp/vmut checkout -q --detach "$(git -C /verif rev-parse HEAD)"
-cd /tmp/vmut
+MR=/tmp/mrepo$K; VM=/tmp/vmut$K
+[ -d $MR ] || git -C /repo worktree add -q --detach $MR HEAD
+git -C $MR checkout -q -- . && git -C $MR clean -fdq -e target
+git -C $MR checkout -q --detach "$(git -C /repo rev-parse HEAD)"
+git -C $MR apply "$PATCH"
+[ -d $VM ] || git -C /verif worktree add -q --detach $VM HEAD
+git -C $VM checkout -q -- .
+git -C $VM checkout -q --detach "$(git -C /verif rev-parse HEAD)"
+cd $VM
 for P in "$@"; do
   echo "== $P on $(basename $(dirname $PATCH))"
-  VERIF_REPO=/tmp/mrepo ./check "$P" quick 2>&1 | grep -E "^VIOLATION|^KNOWN|^check |^BROKEN" | cut -c1-300
+  VERIF_REPO=$MR ./check "$P" quick 2>&1 | grep -E "^VIOLATION|^KNOWN|^check |^BROKEN" | cut -c1-300
 done
-git -C /tmp/mrepo checkout -q -- .
+git -C $MR checkout -q -- .
